@@ -126,9 +126,51 @@ Definition color_of (tbl : list (reg * reg)) (r : reg) : reg :=
 Definition alias_of (tbl : list (reg * list reg)) (p q : reg) : bool :=
   match assoc p tbl with Some l => memz q l | None => false end.
 
-Definition check_frame (prog : list instr) (live : list (list reg)) (ctbl : list (reg * reg))
+(* ---- liveness computed inside Coq (untrusted: its result is validated by [check_live]) *)
+Definition add_set (acc : list reg) (r : reg) : list reg := if memz r acc then acc else r :: acc.
+Definition union (a b : list reg) : list reg := fold_left add_set b a.
+
+(* one backward pass; [old] = table of the previous pass, [tail] = new sets of the points after pc *)
+Fixpoint pass_aux (prog : list instr) (old : list (list reg)) (pcs : list nat)
+  (tail : list (list reg)) : list (list reg) :=
+  match pcs with
+  | [] => tail
+  | pc :: rest =>
+      let lo_of s := if (pc <? s)%nat then nth (s - pc - 1)%nat tail [] else nth s old [] in
+      let lin s := match nth_error prog s with
+                   | Some i => union (i_uses i)
+                                 (filter (fun r => negb (memz r (i_defs i))) (lo_of s))
+                   | None => []
+                   end in
+      let lo := fold_left (fun acc s => union acc (lin s)) (succs prog pc) [] in
+      pass_aux prog old rest (lo :: tail)
+  end.
+Definition pass (prog : list instr) (old : list (list reg)) : list (list reg) :=
+  pass_aux prog old (rev (seq 0 (length prog))) [].
+Definition table_size (t : list (list reg)) : nat := fold_left (fun a l => (a + length l)%nat) t 0%nat.
+Fixpoint iterate_live (prog : list instr) (fuel : nat) (t : list (list reg)) : list (list reg) :=
+  match fuel with
+  | O => t
+  | S f => let t' := pass prog t in
+           if (table_size t' =? table_size t)%nat then t' else iterate_live prog f t'
+  end.
+Definition compute_live (prog : list instr) (fuel : nat) : list (list reg) :=
+  iterate_live prog fuel (map (fun _ => []) prog).
+
+Definition removed_flags (idx : list nat) (n : nat) : list bool :=
+  map (fun k => existsb (Nat.eqb k) idx) (seq 0 n).
+
+(* the per-frame entry point used by the check: certificate supplied ... *)
+Definition check_frame_cert (prog : list instr) (live : list (list reg)) (ctbl : list (reg * reg))
   (atbl : list (reg * list reg)) (physl : list reg) (removed : list bool) (pre : list (reg * reg))
   (after : list instr) : bool :=
   check_alloc prog live (color_of ctbl) (alias_of atbl) physl removed
   && check_precoloured (color_of ctbl) pre
   && check_rewritten prog (color_of ctbl) removed after.
+
+(* ... or computed here (and validated like a supplied one) *)
+Definition check_frame (prog : list instr) (fuel : nat) (ctbl : list (reg * reg))
+  (atbl : list (reg * list reg)) (physl : list reg) (removed_idx : list nat)
+  (pre : list (reg * reg)) (after : list instr) : bool :=
+  check_frame_cert prog (compute_live prog fuel) ctbl atbl physl
+                   (removed_flags removed_idx (length prog)) pre after.
